@@ -217,6 +217,8 @@ THEOREMS = [
     # translated from the source text on every run are proved equal to (GenProps/C02SrcV.lean)
     "MenpoModel.C02.forLoopE_writeback",
     "MenpoModel.C02.batched_loop_eq",
+    "MenpoModel.C02.forLoopE_append",
+    "MenpoModel.C02.batched_comp_eq",
     "MenpoModel.C02.mapShapeE_ok",
     "MenpoModel.C02.vInplaceS_expected",
     "MenpoModel.C02.vTransform_shape",
